@@ -18,7 +18,7 @@ RULE = (
     "file-system scan (no imports), the allow-list, the direct submodules of a fixed package list, near-misses of "
     "allow-listed names (prefixes, suffixes, dotted children, parents) and names of files placed under pyscript/modules and "
     "pyscript/apps; for every name every import statement form {import a, import a as x, from a import b, from a import *, "
-    "and the dotted variants} executed directly, through exec() of source text and inside a function body, with allow_all_imports off and on (thorough: plus the direct submodules of every package found on sys.path). "
+    "and the dotted variants} executed directly, through exec() of source text and inside a function body, alone and next to an allow-listed name in the same statement, with allow_all_imports off and on and with hass_is_global on (thorough: plus the direct submodules of every package found on sys.path). "
     "Oracle: the documented allow-list predicate - not allow-listed, not a pyscript module, option off => "
     "ModuleNotFoundError and an unchanged symbol table; allow-listed / pyscript module => bound and usable; option on => "
     "the interpreter obtains exactly that module (sys.modules entry or one importlib.import_module call with exactly that "
@@ -76,6 +76,9 @@ def forms(name):
     if "." in name:
         parent, child = name.rsplit(".", 1)
         out.append(("from_parent", f"from {parent} import {child}"))
+    # several names in one statement are checked one by one (an allow-listed neighbour changes nothing)
+    out.append(("import_after_allowed", f"import math, {name}"))
+    out.append(("import_before_allowed", f"import {name}, math as m_alias"))
     return out
 
 
@@ -135,13 +138,13 @@ class Env:
         m.SHIM = True
         return m
 
-    def run(self, src, allow):
+    def run(self, src, allow, hass_is_global=False):
         from custom_components.pyscript.eval import AstEval
         from custom_components.pyscript.function import Function
         from custom_components.pyscript.global_ctx import GlobalContext
         from mc.progdiff import drive
 
-        self.entry.data = {"allow_all_imports": allow}
+        self.entry.data = {"allow_all_imports": allow, "hass_is_global": hass_is_global}
         self.mgr.contexts.clear()
         self.requested.clear()
         g = {"MARK": 1}
@@ -206,6 +209,8 @@ def expected(name, form, allow):
 
 
 def check_name(res, env, name):
+    from custom_components.pyscript.const import ALLOWED_IMPORTS as ALLOWED
+
     for form, stmt in forms(name):
         for via in ("direct", "exec", "func"):
             if via == "func" and form == "from_star":
@@ -213,17 +218,23 @@ def check_name(res, env, name):
             src = stmt if via == "direct" else f"exec({stmt!r})"
             if via == "func":
                 src = f"def f_imp():\n    {stmt}\n    return 1\nr_imp = f_imp()"
-            for allow in (False, True):
-                exc, bound, requested = env.run(src, allow)
+            for allow, hig in ((False, False), (True, False), (False, True)):
+                exc, bound, requested = env.run(src, allow, hig)
                 if via == "func":
                     bound = {k: v for k, v in bound.items() if k not in ("f_imp", "r_imp")}
                 exp = expected(name, form, allow)
                 mod = name.rsplit(".", 1)[0] if form == "from_parent" else name
                 obs = (exc, tuple(sorted(bound)), tuple(requested))
-                case = {"name": name, "form": form, "via": via, "allow": allow, "src": src}
-                res.case((expected_class(name), form, via, allow, exc, bool(bound)), nontrivial=True, config=form, sample=case)
+                case = {"name": name, "form": form, "via": via, "allow": allow, "src": src, "hass_is_global": hig}
+                drop = ("math", "m_alias", "hass") if form in ("import_after_allowed", "import_before_allowed") and name != "math" else ("hass",)
+                bound = {k: v for k, v in bound.items() if k not in drop}
+                if "math" in drop:
+                    requested = [r for r in requested if r != "math"]
+                res.case((expected_class(name), form, via, allow, hig, exc, bool(bound)), nontrivial=True, config=form, sample=case)
                 fail = None
-                if exp == "error":
+                if form == "from_parent" and not allow and name not in ALLOWED and name not in PYSCRIPT_MODULES and name in requested:
+                    fail = {"kind": "unlisted-submodule-imported", "expected": [], "observed": obs}
+                elif exp == "error":
                     if exc != "ModuleNotFoundError":
                         fail = {"kind": "not-rejected", "expected": "ModuleNotFoundError", "observed": obs}
                     elif bound:
@@ -393,7 +404,8 @@ def replay(case):
             fails = [f for f in res.failures if f["case"]["src"] == case["src"] and f["case"]["option"] == case["option"]]
         else:
             check_name(res, env, case["name"])
-            fails = [f for f in res.failures if f["case"]["src"] == case["src"] and f["case"]["allow"] == case["allow"]]
+            fails = [f for f in res.failures if f["case"]["src"] == case["src"] and f["case"]["allow"] == case["allow"]
+                     and f["case"].get("hass_is_global", False) == case.get("hass_is_global", False)]
         return {"ok": not fails, "failures": [{"sig": f["sig"], "observed": repr(f["observed"])[:300]} for f in fails[:3]]}
     finally:
         env.close()
